@@ -30,7 +30,11 @@ class C16(Prop):
         rows2 = C.read_jsonl(p2)
         if rc != 0 or not rows2:
             raise RuntimeError("C16 overlap harness did not run: rc=%s\n%s" % (rc, out[-2000:]))
-        return {"rows": rows + rows2}
+        rc, out, p3, dt = C.go_test_overlay(ctx.work, "./utils/tcpbridge/connection/", "TestVerifC16SlowReader$", OVERLAY, "C16Slow.jsonl", ctx.seed, ctx.tier, timeout=1800, extra_env=env)
+        rows3 = C.read_jsonl(p3)
+        if rc != 0 or not rows3:
+            raise RuntimeError("C16 slow-reader harness did not run: rc=%s\n%s" % (rc, out[-2000:]))
+        return {"rows": rows + rows2 + rows3}
 
     def oracle(self, ctx, obs):
         res = []
@@ -38,6 +42,14 @@ class C16(Prop):
             if r["kind"] == "open-count":
                 if r["open"] != 0:
                     res.append(("connections-leaked", "%d of %d bridged connections are still open on the TCP server after both ends are gone" % (r["open"], r["scenarios"]), r))
+                continue
+            if r["kind"] == "slow-reader":
+                rp = {"driver": "TestVerifC16SlowReader: the TCP server streams 48 MiB, the client reads 1 MiB, pauses, then reads on", "observed": r}
+                if r.get("err"):
+                    res.append(("bridge-connect-error", r["err"], rp))
+                elif r.get("client_received") != r.get("sent_target") or r.get("server_err"):
+                    res.append(("cut-off-while-both-peers-open", "a client that paused reading for %d ms received %s of %s bytes (%s; server: wrote %s, %s): the bridge ended a connection neither peer had closed" % (
+                        r["pause_ms"], r.get("client_received"), r.get("sent_target"), r.get("client_err", "no read error"), r.get("server_written"), r.get("server_err") or "no error"), rp))
                 continue
             if r["kind"] == "overlap":
                 rp = {"driver": "TestVerifC16Overlap: several TCP clients at once <-> tcp-bridge-frontend <=ws=> tcp-bridge-backend <-> TCP server", "observed": r}
